@@ -37,15 +37,6 @@ structure Dial where
   jar : Str := []                     -- `CookieJar.get(host)`
   deriving Repr, DecidableEq, Inhabited
 
-inductive Ev where
-  | dial (i : Nat) (u : UrlParts)        -- a TCP connection was opened (for the URL with parts `u`)
-  | adopt (i : Nat) (u : UrlParts)       -- the caller's pre-initialised socket is used
-  | plain (i : Nat) (e : IoEv)           -- CONNECT exchange with the proxy
-  | wrap (i : Nat) (p : Policy) (ok : Bool)
-  | io (i : Nat) (e : IoEv)              -- the WebSocket handshake
-  | close (i : Nat)
-  deriving Repr, DecidableEq, Inhabited
-
 /-- `_tunnel(sock, host, port, auth)` -/
 def tunnel (s : Sock) (host : Str) (port : Nat) (auth : Option (Str × Option Str)) :
     Except HExn Unit × Sock × List IoEv :=
